@@ -189,6 +189,21 @@ def run_apply(key):
     bad = tol.mismatch(got, want, tol.TIGHT, what='apply_beamforming_vector vs w^H x')
     if bad:
         return viol(bad)
+    if not lead:
+        # a stack of K vectors (K, F, D) applied to one mixture (F, D, T): K outputs - also when K equals T or F
+        for Kv in sorted({2, T, F}):
+            wk = A.cnormal(A.rng(seed, 'c13apply-k', Kv, F, D, T), (Kv, F, D))
+            try:
+                gk = np.asarray(bf.apply_beamforming_vector(wk, x))
+            except Exception as e:  # noqa
+                return viol(f'apply_beamforming_vector raised {e!r} for vectors {wk.shape} and a mixture {x.shape}')
+            wantk = np.einsum('kfd,fdt->kft', wk.conj(), x)
+            if gk.shape != wantk.shape:
+                return viol(f'apply_beamforming_vector: shape {gk.shape} != {wantk.shape} for vectors {wk.shape} and a '
+                            f'mixture {x.shape}')
+            bad = tol.mismatch(gk, wantk, tol.TIGHT, what=f'apply_beamforming_vector, {Kv} vectors on one mixture')
+            if bad:
+                return viol(bad)
     return ok(outcome=tol.digest(want))
 
 
@@ -246,6 +261,10 @@ def run_singular(key):
     Pxx, Pnn = psds(seed, (), F, D, 'sing')
     if key['real_noise']:
         Pnn = np.ascontiguousarray(Pnn.real)     # real-valued (symmetric PD) noise PSD, complex target
+    if key.get('levels'):
+        # the regular problems differ by 15 orders of magnitude in level (bin f at 1e-15 ** (f % 2))
+        lv = np.array([1e-15 if f % 2 else 1.0 for f in range(F)])[:, None, None]
+        Pxx, Pnn = Pxx * lv, Pnn * lv
     X, N = Pxx.copy(), Pnn.copy()
     for f, p in enumerate(pattern):
         for M_, on in ((N, which in ('noise', 'both')), (X, which in ('target', 'both'))):
@@ -294,7 +313,8 @@ def run_singular(key):
         return viol(f'{fn}: non-finite vector for pattern {pattern} ({which})')
     for f, p in enumerate(pattern):
         if p == 0:
-            bad = tol.mismatch(got[f], reg[f], rt_reg, what=f'{fn}: regular bin {f} affected by singular neighbours {pattern}')
+            sc_ = float(np.abs(reg[f]).max()) or 1.0     # relative to the level of that bin
+            bad = tol.mismatch(got[f] / sc_, reg[f] / sc_, rt_reg, what=f'{fn}: regular bin {f} affected by singular neighbours {pattern}')
             if bad:
                 return viol(bad)
     return ok(outcome=tol.digest(np.where(np.isfinite(got), got, 0)))
@@ -338,7 +358,7 @@ def subchecks(tier, seed):
             for lead in ((), (2,), (2, 3)):
                 for F in (1, 2, 5):
                     for D in (1, 2, 3, 8):
-                        for T in (1, 4):
+                        for T in (1, 4, 5):
                             yield (lead, F, D, T, seed)
     subs.append(Sub('apply_beamforming_vector', ('lead', 'F', 'D', 'T', 'seed'), apply_cases, run_apply))
 
@@ -362,11 +382,15 @@ def subchecks(tier, seed):
                                 for real_noise in (False, True):
                                     if real_noise and (D == 3 or mu == 0.5):
                                         continue
-                                    yield (pattern, which, D, fn, mu, rd, real_noise, False, seed)
+                                    yield (pattern, which, D, fn, mu, rd, real_noise, False, False, seed)
                                     if not real_noise and D == 2 and mu in (None, 1.0) and 1 not in pattern:
-                                        yield (pattern, which, D, fn, mu, rd, real_noise, True, seed)
+                                        yield (pattern, which, D, fn, mu, rd, real_noise, True, False, seed)
+                                    if not real_noise and D == 3 and mu in (None, 1.0) and 1 not in pattern \
+                                            and which == 'noise':
+                                        yield (pattern, which, D, fn, mu, rd, real_noise, False, True, seed)
     subs.append(Sub('singular_bins',
-                    ('pattern', 'which', 'D', 'fn', 'mu', 'rank_deficient_noise', 'real_noise', 'single', 'seed'),
+                    ('pattern', 'which', 'D', 'fn', 'mu', 'rank_deficient_noise', 'real_noise', 'single', 'levels',
+                     'seed'),
                     sing_cases, run_singular,
                     bound=dict(patterns='all {regular, rank-1, zero}^4')))
     return subs
